@@ -29,6 +29,7 @@ pub fn run_property(p: &str) {
         "C10" => c10(),
         "C17" => c17(),
         "C20" => c20(),
+        "C11" => c11(),
         other => {
             eprintln!("no loom models for {other}");
             std::process::exit(2)
@@ -351,4 +352,15 @@ fn c20() {
     let n = jobs.len();
     jobs[n - 1].harness = "c20_describe";
     finish(rep, jobs, "Two threads describing (and incrementing) their own metric at the same moment: the readout writes both with the described unit. 1-3 updater threads x 1-3 operations (counter increments on shared and distinct keys, histogram records, gauge sets; handles registered up front or on first use) against 1-3 readouts on the main thread plus a final readout, all schedules within the preemption bound, counters and gauges on loom atomics: per key the reported counter deltas sum to the total incremented, histogram occurrences sum to the number of records, the gauge reports the last value set.");
+}
+
+fn c11() {
+    let rep = Report::from_args("C11", "model_checking");
+    let tier = rep.tier;
+    let pb = tier.pick(3, 4);
+    let mut jobs = Vec::new();
+    for adders in [json!([[5], [900]]), json!([[5, 40], [900]]), json!([[5], [5]]), json!([[5], [900], [70000]]), json!([[5, 5], [40, 900]])] {
+        jobs.push(Job { harness: "c11_shared", cfg: json!({"adders": adders, "pb": pb}) });
+    }
+    finish(rep, jobs, "2-3 threads recording 1-2 values each into ONE fresh SharedHistogram (so the first records race), all schedules within the preemption bound, record/drain of the atomic strategy as marked steps and every std::sync primitive of histogram.rs scheduler-visible: the closed histogram counts every observation exactly once and reports each within 6.25%.");
 }
